@@ -47,6 +47,13 @@ def gen(rng, k, seed):
         kv["slice_us"] = rng.choice([200, 2000])
     if policy != "conflate" and kv["producers"] >= 2 and rng.random() < 0.3:
         kv["sources"] = rng.choice([2, 2, 3])          # several push sources share the executor's single wake-up flag
+        if rng.random() < 0.7:
+            # ... each with a capacity of its own (same value type, different bounds, unbounded next to bounded)
+            kv["producers"] = max(kv["producers"], kv["sources"])
+            caps = [rng.choice([0, 1, 2, 3, 5]) for _ in range(kv["sources"])]
+            if len(set(caps)) == 1:
+                caps[-1] = (caps[0] + rng.choice([1, 2])) % 6
+            kv["caps"] = ",".join(str(x) for x in caps)
     return Scenario(f"c16_{seed}_{k}", kv)
 
 
@@ -104,7 +111,11 @@ def check(sc, tr, rc):
             t2 = copy.copy(tr)
             t2.sends = [x for x in tr.sends if x[1] == "late" and src == 0 or (x[1] != "late" and ((x[2] // 1000000) - 1) % nsrc == src)]
             t2.deliveries = [d for d in tr.deliveries if d[5] == src]
-            V, C, v = check_single(sc, t2, rc)
+            sc2 = sc
+            if sc.kv.get("caps"):
+                sc2 = copy.copy(sc)
+                sc2.kv = dict(sc.kv, cap=int(str(sc.kv["caps"]).split(",")[src]))       # every source has its OWN capacity
+            V, C, v = check_single(sc2, t2, rc)
             Vall += [f"source {src}: {m}" for m in V]
             for k, val in C.items():
                 Call[k] = Call.get(k, 0) + val
